@@ -9,6 +9,8 @@ import re
 import numpy as np
 import torch
 
+torch.set_num_threads(1)
+
 from vlib import Violation, coq_Z, coq_bool
 
 from agilerl.modules.mlp import EvolvableMLP
@@ -176,6 +178,9 @@ class Block:
             try:
                 clone.load_state_dict(m.state_dict(), strict=True)
                 rec["load"] = "ok"
+                x = self.make_input(case, 3)
+                with torch.no_grad():
+                    rec["same_fn"] = bool(torch.allclose(m(x), clone(x), atol=1e-6))
             except Exception as e:  # noqa
                 rec["load"] = f"{type(e).__name__}: {e}"[:300]
             d2 = self.desc(clone)
@@ -184,9 +189,28 @@ class Block:
             rec["rebuilt"] = f"raised {type(e).__name__}: {e}"[:300]
             rec["load"] = None
 
+    SIZE_KEYS = ("hidden_size", "channel_size", "kernel_size", "stride_size")
+
+    def observe_sibling(self, sib, desc0, kw, kw0):
+        """a second module built from the SAME configuration objects must not notice the mutations of the first"""
+        out = {"desc_same": self.desc(sib) == desc0, "user_config_same": self.sizes_of(kw) == kw0}
+        try:
+            clone = type(sib)(**copy.deepcopy(sib.init_dict))
+            clone.load_state_dict(sib.state_dict(), strict=True)
+            out["load"] = "ok"
+        except Exception as e:  # noqa
+            out["load"] = f"{type(e).__name__}: {e}"[:300]
+        return out
+
+    def sizes_of(self, kw):
+        return copy.deepcopy({k: v for k, v in kw.items() if k in self.SIZE_KEYS})
+
     def run(self, case):
         torch.manual_seed(0)
-        m = self.build(case)
+        kw = self.kwargs(case)
+        kw0 = self.sizes_of(kw)
+        m = self.cls(**kw)
+        sib = self.cls(**kw) if case.get("sibling") else None
         every = case.get("every", 1)
         obs = {"methods": sorted(m.mutation_methods), "desc0": self.desc(m),
                "shapes0": canon_shapes(m.state_dict(), self.strip), "steps": []}
@@ -212,6 +236,8 @@ class Block:
             obs["steps"].append(rec)
             if rec["error"] is not None:
                 break
+        if sib is not None:
+            obs["sibling"] = self.observe_sibling(sib, obs["desc0"], kw, kw0)
         return obs
 
     # -- oracle: the property stated on the implementation's behaviour
@@ -247,7 +273,7 @@ class Block:
                     exp[i] = tgt
                     if post["widths"] != exp:
                         out.append(("effective", f"{attr}({i},{n}) not stopped by a bound ({pre['widths'][i]} -> {tgt} inside ({wlo},{whi})) but widths {pre['widths']} -> {post['widths']}"))
-                elif tgt < wlo or tgt > whi:
+                elif (sign > 0 and tgt > whi) or (sign < 0 and tgt < wlo):
                     if post["widths"] != exp:
                         out.append(("bounds", f"{attr}({i},{n}) must be stopped by the bound [{wlo},{whi}] but widths {pre['widths']} -> {post['widths']}"))
         return out
@@ -265,7 +291,7 @@ class Block:
     def oracle(self, case, obs):
         out = []
         sig = f"{self.name}"
-        if obs["methods"] != self.advertised(case):
+        if self.advertised(case) is not None and obs["methods"] != self.advertised(case):
             out.append(Violation("advertised-methods", f"{sig}:advertised-methods",
                                  f"mutation_methods = {obs['methods']}, expected {self.advertised(case)}"))
         pre = obs["desc0"]
@@ -275,7 +301,7 @@ class Block:
                 out.append(Violation("valid", f"{sig}:{step['m']}:raised", f"{where}: {rec['error']}"))
                 break
             post = rec["desc"]
-            if rec["attr"] is not None and rec["attr"] not in obs["methods"]:
+            if rec["attr"] and rec["attr"] not in obs["methods"]:
                 out.append(Violation("resolved-method", f"{sig}:{step['m']}:resolved", f"{where}: last_mutation_attr={rec['attr']} is not advertised"))
             # bounds: inside stays inside; outside never moves further out
             qa, qb = self.quantities(case, pre), self.quantities(case, post)
@@ -287,8 +313,9 @@ class Block:
                     out.append(Violation("bounds", f"{sig}:{step['m']}:bounds:{nm.split('[')[0]}", f"{where}: {nm}={v} outside [{lo},{hi}]"))
                 elif pv is not None and ((v > hi and v > pv) or (v < lo and v < pv)):
                     out.append(Violation("bounds", f"{sig}:{step['m']}:bounds-further-out:{nm.split('[')[0]}", f"{where}: {nm} {pv} -> {v} moves away from [{lo},{hi}]"))
-            for cl, det in self.effect(case, step, pre, post, rec):
-                out.append(Violation(cl, f"{sig}:{step['m']}:{cl}", f"{where}: {det}"))
+            for item in self.effect(case, step, pre, post, rec):
+                cl, det = item[0], item[1]
+                out.append(Violation(cl, item[2] if len(item) > 2 else f"{sig}:{step['m']}:{cl}", f"{where}: {det}"))
             if rec.get("fw") is not None:
                 for b, f in zip((1, 2, 3), rec["fw"]):
                     if "error" in f:
@@ -303,9 +330,20 @@ class Block:
                     out.append(Violation("rebuild", f"{sig}:{step['m']}:load-state-dict", f"{where}: rebuilt module does not accept the weights at {post}: {rec.get('load')}"))
                 elif rec.get("rebuilt_desc_same") is False:
                     out.append(Violation("rebuild", f"{sig}:{step['m']}:ctor-not-fixed-point", f"{where}: the rebuilt module reports a different constructor description"))
+                elif rec.get("same_fn") is False:
+                    out.append(Violation("rebuild", f"{sig}:{step['m']}:rebuilt-different-function", f"{where}: the module rebuilt from init_dict computes different outputs with the same weights"))
             if out:
                 break
             pre = post
+        sb = obs.get("sibling")
+        if sb and not out:
+            what = f"two {self.name} modules built from one configuration, chain {[s['m'] for s in case['steps']]} applied to the first"
+            if not sb["desc_same"]:
+                out.append(Violation("rebuild", f"{sig}:sibling:descriptor-changed", f"{what}: the constructor description of the second changed"))
+            elif sb["load"] != "ok":
+                out.append(Violation("rebuild", f"{sig}:sibling:load-state-dict", f"{what}: the second no longer rebuilds from its description: {sb['load']}"))
+            elif not sb["user_config_same"]:
+                out.append(Violation("rebuild", f"{sig}:sibling:user-config-changed", f"{what}: the caller's size lists were modified"))
         return out
 
 
@@ -489,7 +527,7 @@ def oracle_case(case, obs):
 
 
 def key_case(case):
-    k = {x: case.get(x) for x in ("block", "static", "cfg", "init", "steps", "every")}
+    k = {x: case.get(x) for x in ("block", "net", "obs", "space", "vector_mlp", "clone", "sibling", "static", "cfg", "init", "steps", "every")}
     return hashlib.sha1(json.dumps(k, sort_keys=True, default=str).encode()).hexdigest()
 
 
@@ -625,3 +663,397 @@ class CNN(Block):
 
 
 register(CNN())
+
+
+# ------------------------------------------------------------------ networks (clone-and-mutate steps)
+from gymnasium import spaces  # noqa: E402
+from agilerl.networks.q_networks import QNetwork, RainbowQNetwork, ContinuousQNetwork  # noqa: E402
+from agilerl.networks.value_networks import ValueNetwork  # noqa: E402
+from agilerl.networks.actors import DeterministicActor, StochasticActor  # noqa: E402
+
+OBS = {
+    "vector": lambda: spaces.Box(-1, 1, (4,)),
+    "simba": lambda: spaces.Box(-1, 1, (4,)),
+    "image": lambda: spaces.Box(0, 1, (2, 16, 16)),
+    "lstm": lambda: spaces.Box(-1, 1, (5, 4)),
+    "dict": lambda: spaces.Dict({"a": spaces.Box(-1, 1, (4,)), "b": spaces.Box(0, 1, (2, 16, 16))}),
+    "tuple": lambda: spaces.Tuple((spaces.Box(-1, 1, (3,)), spaces.Discrete(3))),
+}
+MLP_DEFAULT_BOUNDS = {"min_hidden_layers": 1, "max_hidden_layers": 3, "min_mlp_nodes": 64, "max_mlp_nodes": 500}
+
+
+def net_canon(sd):
+    out = []
+    for k, v in sd.items():
+        if k.startswith("encoder.model."):
+            k2 = "enc:" + re.sub(r"^encoder\.model\.encoder_", "", k)
+        elif k.startswith("encoder."):
+            k2 = "enc:" + k[len("encoder."):]
+        elif k.startswith("head_net.advantage_net."):
+            k2 = "adv:" + re.sub(r"^head_net\.advantage_net\.[a-z]+_", "", k)
+        elif k.startswith("head_net."):
+            k2 = "head:" + re.sub(r"^head_net\.(_wrapped\.)?(model\.[a-z]+_)?", "", k)
+        else:
+            k2 = k
+        nums = [int(x) for x in re.findall(r"\d+", k2)]
+        out.append([re.sub(r"\d+", "#", k2), nums, [int(x) for x in v.shape]])
+    return out
+
+
+class Net(Block):
+    name = "net"
+
+    # ---- construction
+    def space(self, case):
+        return OBS[case["obs"]]()
+
+    def action_space(self, case):
+        return spaces.Box(-1, 1, (2,)) if case["net"] in ("det", "stoch", "contq") else spaces.Discrete(3)
+
+    def kwargs(self, case):
+        kw = {"observation_space": self.space(case), "latent_dim": case["init"]["latent"],
+              "min_latent_dim": case["cfg"]["min_latent_dim"], "max_latent_dim": case["cfg"]["max_latent_dim"]}
+        enc = copy.deepcopy(case["cfg"]["encoder_config"])
+        e = case["init"]["enc"]
+        if case["obs"] in ("vector", "tuple_vec"):
+            enc["hidden_size"] = list(e["widths"])
+        elif case["obs"] == "image":
+            enc.update(channel_size=list(e["widths"]), kernel_size=list(e["kernels"]), stride_size=list(e["strides"]))
+        elif case["obs"] == "simba":
+            enc.update(hidden_size=e["widths"][0], num_blocks=e["layers"]); kw["simba"] = True
+        elif case["obs"] == "lstm":
+            enc.update(hidden_size=e["widths"][0], num_layers=e["layers"]); kw["recurrent"] = True
+        kw["encoder_config"] = enc
+        head = copy.deepcopy(case["cfg"]["head_config"]); head["hidden_size"] = list(case["init"]["head"])
+        kw["head_config"] = head
+        n = case["net"]
+        if n != "value":
+            kw["action_space"] = self.action_space(case)
+        if n == "rainbow":
+            kw["support"] = torch.linspace(0.0, 1.0, 5); kw["num_atoms"] = 5
+            kw.pop("simba", None); kw.pop("recurrent", None)
+        return kw
+
+    def cls_of(self, case):
+        return {"q": QNetwork, "rainbow": RainbowQNetwork, "contq": ContinuousQNetwork, "value": ValueNetwork,
+                "det": DeterministicActor, "stoch": StochasticActor}[case["net"]]
+
+    def build(self, case):
+        return self.cls_of(case)(**self.kwargs(case))
+
+    def enc_desc(self, case, cfg):
+        if case["obs"] == "image":
+            ch = [int(x) for x in py(cfg["channel_size"])]
+            return {"layers": len(ch), "widths": ch, "kernels": [int(x) for x in py(cfg["kernel_size"])], "strides": [int(x) for x in py(cfg["stride_size"])]}
+        if case["obs"] == "simba":
+            return {"layers": int(cfg["num_blocks"]), "widths": [int(cfg["hidden_size"])]}
+        if case["obs"] == "lstm":
+            return {"layers": int(cfg["num_layers"]), "widths": [int(cfg["hidden_size"])]}
+        h = [int(x) for x in py(cfg["hidden_size"])]
+        return {"layers": len(h), "widths": h}
+
+    def desc(self, m):
+        d = m.init_dict
+        h = [int(x) for x in py(d["head_config"]["hidden_size"])]
+        return {"latent": int(d["latent_dim"]), "enc": self.enc_desc(self._case, d["encoder_config"]),
+                "head": {"layers": len(h), "widths": h}}
+
+    def advertised(self, case):
+        enc = {"vector": ["add_node", "remove_node"], "simba": ["add_node", "remove_node"], "lstm": ["add_node", "remove_node"],
+               "image": ["add_channel", "change_kernel", "remove_channel"]}[case["obs"]]
+        return sorted(["add_latent_node", "remove_latent_node"] + ["encoder." + x for x in enc]
+                      + ["head_net." + x for x in ("add_layer", "remove_layer", "add_node", "remove_node")])
+
+    def make_input(self, case, b):
+        sp = self.space(case)
+        x = torch.rand(b, *sp.shape)
+        if case["net"] == "contq":
+            return (x, torch.rand(b, 2))
+        return (x,)
+
+    def out_shape(self, case, b):
+        return {"q": [b, 3], "rainbow": [b, 3], "contq": [b, 1], "value": [b, 1], "det": [b, 2], "stoch": [b, 2]}[case["net"]]
+
+    def enc_full(self, net):
+        d = net.encoder.init_dict
+        return {k: d.get(k) for k in ("activation", "output_activation", "layer_norm", "output_layernorm", "output_vanish")}
+
+    def run(self, case):
+        torch.manual_seed(0)
+        self._case = case
+        user_cfg = copy.deepcopy(case["cfg"])
+        kw = self.kwargs(case)
+        def sizes(kw):
+            return {c: {k: v for k, v in kw[c].items() if k in ("hidden_size", "channel_size", "kernel_size", "stride_size")}
+                    for c in ("encoder_config", "head_config")}
+        kw_snapshot = copy.deepcopy(sizes(kw))
+        m = self.cls_of(case)(**kw)
+        sib = self.cls_of(case)(**kw) if case.get("sibling") else None
+        obs = {"methods": sorted(m.mutation_methods), "desc0": self.desc(m), "shapes0": net_canon(m.state_dict()), "steps": [],
+               "config_untouched": True, "bounds": self.declared_bounds(case, m)}
+        if case["obs"] == "vector" and case["net"] != "rainbow":
+            obs["enc_full"] = self.enc_full(m)
+            try:
+                obs["enc_full_rebuilt"] = self.enc_full(type(m)(**copy.deepcopy(m.init_dict)))
+            except Exception as e:  # noqa
+                obs["enc_full_rebuilt"] = f"raised {type(e).__name__}: {e}"[:200]
+        rec0 = {"error": None, "attr": None, "ret": []}
+        self.observe_full(m, case, rec0)
+        obs["full0"] = {k: rec0.get(k) for k in ("fw", "rebuilt", "load", "same_fn", "rebuilt_desc_same")}
+        if isinstance(obs["full0"]["rebuilt"], list):
+            obs["full0"]["rebuilt"] = "ok" if obs["full0"]["rebuilt"] == obs["shapes0"] else obs["full0"]["rebuilt"]
+        every = case.get("every", 1)
+        n = len(case["steps"])
+        for i, step in enumerate(case["steps"]):
+            rec = {"error": None, "attr": None, "ret": [], "shapes": None, "rebuilt": None}
+            sc = Script(step.get("r", []))
+            try:
+                if case.get("clone", True):
+                    parent_sd = {k: v.clone() for k, v in m.state_dict().items()}
+                    m = m.clone()                         # clone-and-mutate
+                    csd = m.state_dict()
+                    rec["clone_same_weights"] = (list(csd.keys()) == list(parent_sd.keys())
+                                                 and all(torch.equal(csd[k], parent_sd[k]) for k in csd))
+                with sc:
+                    ret = self.call(m, step)
+                rec["attr"] = m.last_mutation_attr or ""
+                rec["ret"] = [int(v) for v in ret.values()] if isinstance(ret, dict) else []
+            except Exception as e:  # noqa
+                rec["error"] = f"{type(e).__name__}: {e}"[:400]
+            rec["used"] = sc.used
+            try:
+                rec["desc"] = self.desc(m)
+            except Exception as e:  # noqa
+                rec["desc"] = None
+                rec["error"] = rec["error"] or f"descriptor: {type(e).__name__}: {e}"[:300]
+            if rec["error"] is None and every > 0 and (i % every == 0 or i == n - 1):
+                self.observe_full(m, case, rec)
+            obs["steps"].append(rec)
+            if rec["error"] is not None:
+                break
+        obs["config_untouched"] = (kw_snapshot == sizes(kw))      # the caller's size lists after the whole chain
+        if sib is not None:
+            sb = {"desc_same": self.desc(sib) == obs["desc0"], "user_config_same": obs["config_untouched"]}
+            try:
+                clone = type(sib)(**copy.deepcopy(sib.init_dict))
+                clone.load_state_dict(sib.state_dict(), strict=True)
+                sb["load"] = "ok"
+            except Exception as e:  # noqa
+                sb["load"] = f"{type(e).__name__}: {e}"[:300]
+            obs["sibling"] = sb
+        return obs
+
+    def observe_full(self, m, case, rec):
+        rec["shapes"] = net_canon(m.state_dict())
+        fw, ys = [], []
+        xs = [self.make_input(case, b) for b in (1, 2, 3)]
+        for b, x in zip((1, 2, 3), xs):
+            try:
+                with torch.no_grad():
+                    y = m(*x)
+                if isinstance(y, tuple):
+                    y = y[0]
+                ys.append(y)
+                fw.append({"shape": [int(v) for v in y.shape], "finite": bool(torch.isfinite(y).all())})
+            except Exception as e:  # noqa
+                ys.append(None)
+                fw.append({"error": f"{type(e).__name__}: {e}"[:300]})
+        rec["fw"] = fw
+        try:
+            clone = type(m)(**copy.deepcopy(m.init_dict))
+            rec["rebuilt"] = net_canon(clone.state_dict())
+            try:
+                clone.load_state_dict(m.state_dict(), strict=True)
+                rec["load"] = "ok"
+                if case["net"] != "stoch" and ys[2] is not None:
+                    with torch.no_grad():
+                        y2 = clone(*xs[2])
+                    rec["same_fn"] = bool(torch.allclose(y2, ys[2], atol=1e-6))
+            except Exception as e:  # noqa
+                rec["load"] = f"{type(e).__name__}: {e}"[:300]
+            rec["rebuilt_desc_same"] = (self.desc(clone) == self.desc(m))
+        except Exception as e:  # noqa
+            rec["rebuilt"] = f"raised {type(e).__name__}: {e}"[:300]
+            rec["load"] = None
+
+    # ---- oracle
+    BOUND_KEYS = {"mlp": ("min_hidden_layers", "max_hidden_layers", "min_mlp_nodes", "max_mlp_nodes"),
+                  "cnn": ("min_hidden_layers", "max_hidden_layers", "min_channel_size", "max_channel_size"),
+                  "simba": ("min_blocks", "max_blocks", "min_mlp_nodes", "max_mlp_nodes"),
+                  "lstm": ("min_layers", "max_layers", "min_hidden_size", "max_hidden_size")}
+
+    def declared_bounds(self, case, m):
+        """the bounds the built network declares in its constructor description"""
+        d = m.init_dict
+        kind = {"vector": "mlp", "image": "cnn", "simba": "simba", "lstm": "lstm"}[case["obs"]]
+        return {"enc": {k: int(d["encoder_config"][k]) for k in self.BOUND_KEYS[kind]},
+                "head": {k: int(d["head_config"][k]) for k in self.BOUND_KEYS["mlp"]}}
+
+    def sub(self, case, which):
+        """(block used for the sub-architecture, pseudo-case carrying its declared bounds)"""
+        b = self._obs["bounds"][which]
+        if which == "head":
+            return BLOCKS["mlp"], {"cfg": b, "static": {}}
+        kind = {"vector": "mlp", "image": "cnn", "simba": "simba", "lstm": "lstm"}[case["obs"]]
+        return BLOCKS[kind], {"cfg": b, "static": {"input_shape": [2, 16, 16]}}
+
+    def quantities(self, case, d):
+        q = [("latent", d["latent"], case["cfg"]["min_latent_dim"], case["cfg"]["max_latent_dim"])]
+        for which in ("enc", "head"):
+            blk, pc = self.sub(case, which)
+            q += [(f"{which}.{nm}", v, lo, hi) for (nm, v, lo, hi) in blk.quantities(pc, d[which])]
+        return q
+
+    def effect(self, case, step, pre, post, rec):
+        out = []
+        m, attr = step["m"], rec["attr"]
+        lo, hi = case["cfg"]["min_latent_dim"], case["cfg"]["max_latent_dim"]
+        if m in ("add_latent_node", "remove_latent_node"):
+            if attr != m:
+                out.append(("resolved-method", f"{m} reported as {attr!r}"))
+            n = rec["ret"][0] if rec["ret"] else 0
+            tgt = pre["latent"] + (n if m == "add_latent_node" else -n)
+            if n > 0 and lo < tgt < hi and post["latent"] != tgt:
+                out.append(("effective", f"{m}({n}) not stopped by a bound ({pre['latent']} -> {tgt} inside ({lo},{hi})) but latent={post['latent']}"))
+            if ((m == "add_latent_node" and tgt > hi) or (m == "remove_latent_node" and tgt < lo)) and post["latent"] != pre["latent"]:
+                out.append(("bounds", f"{m}({n}) must be stopped by [{lo},{hi}] but latent {pre['latent']} -> {post['latent']}"))
+            if post["enc"] != pre["enc"] or post["head"] != pre["head"]:
+                out.append(("effective", f"{m} changed more than the latent width: {pre} -> {post}"))
+            return out
+        which, inner = ("enc", m[len("encoder."):]) if m.startswith("encoder.") else ("head", m[len("head_net."):])
+        blk, pc = self.sub(case, which)
+        other = "head" if which == "enc" else "enc"
+        if post[other] != pre[other] or post["latent"] != pre["latent"]:
+            out.append(("effective", f"{m} changed another part of the network: {pre} -> {post}"))
+        pref = "encoder." if which == "enc" else "head_net."
+        if attr == "" and which == "head" and case["net"] == "stoch" and post == pre:
+            blk0, pc0 = self.sub(case, "head")
+            lo_l, hi_l = blk0.bounds(pc0)["layers"]
+            return out + [("effective", f"{m} is advertised by the StochasticActor (EvolvableDistribution forwards the wrapped MLP's "
+                           f"methods) but the call changed nothing and reports no applied method: head stays {pre['head']} "
+                           f"(layer bounds [{lo_l},{hi_l}])", f"net:stoch-head-not-forwarded:{inner}")]
+        if attr == "" and which == "enc" and case["obs"] == "image" and inner == "change_kernel" and pre["enc"]["layers"] == 1:
+            return out          # one conv layer: there is no kernel the method may change (layer mutations are disabled)
+        if not attr.startswith(pref):
+            out.append(("resolved-method", f"{m} reported as {attr!r}"))
+            return out
+        rec2 = dict(rec); rec2["attr"] = attr[len(pref):]
+        out += blk.effect(pc, {"m": inner, "args": step.get("args", {})}, pre[which], post[which], rec2)
+        return out
+
+    def oracle(self, case, obs):
+        self._obs = obs
+        out = super().oracle(case, obs)
+        sig = "net"
+        if not obs.get("config_untouched", True):
+            out.append(Violation("config", f"{sig}:{case['net']}:config-mutated", "the size lists of the caller's encoder_config / head_config changed (shared with the network)"))
+        f0 = obs.get("full0", {})
+        where = f"{case['net']} network over {case['obs']} observations built from encoder_config={case['cfg']['encoder_config']}"
+        if isinstance(f0.get("rebuilt"), str) and f0["rebuilt"] != "ok":
+            out.append(Violation("rebuild", f"{sig}:init:ctor-raised", f"{where}: {f0['rebuilt']}"))
+        elif f0.get("load") not in (None, "ok"):
+            out.append(Violation("rebuild", f"{sig}:init:load-state-dict", f"{where}: {f0.get('load')}"))
+        elif f0.get("same_fn") is False:
+            out.append(Violation("rebuild", f"{sig}:init:rebuilt-different-function",
+                                 f"{where}: type(net)(**net.init_dict) with the same weights computes different outputs "
+                                 f"(encoder fields built {obs.get('enc_full')} vs rebuilt {obs.get('enc_full_rebuilt')})"))
+        for i, rec in enumerate(obs["steps"]):
+            if rec.get("clone_same_weights") is False:
+                out.append(Violation("rebuild", f"{sig}:clone-weights", f"step {i}: clone() did not take over the weights"))
+                break
+        return out
+
+    # ---- Coq
+    def enc_arch_term(self, case, e):
+        if case["obs"] == "image":
+            return f"(ECnn {{| channels := {czl(e['widths'])}; kernels := {czl(e['kernels'])}; strides := {czl(e['strides'])} |}})"
+        if case["obs"] in ("simba", "lstm"):
+            k = "ESimba" if case["obs"] == "simba" else "ELstm"
+            return f"({k} {{| s_layers := {cz(e['layers'])}; s_width := {cz(e['widths'][0])} |}})"
+        return f"(EMlp {czl(e['widths'])})"
+
+    def arch_term(self, case, d):
+        return f"{{| n_latent := {cz(d['latent'])}; n_enc := {self.enc_arch_term(case, d['enc'])}; n_head := {czl(d['head']['widths'])} |}}"
+
+    def static_term(self, case):
+        ec, hc = case["cfg"]["encoder_config"], case["cfg"]["head_config"]
+        o = case["obs"]
+        if o == "image":
+            es = f"(SCnn 2 16 16 {coq_bool(ec.get('layer_norm', False))})"
+        elif o == "simba":
+            es = f"(SSimba 4 {cz(ec.get('scale_factor', 4))})"
+        elif o == "lstm":
+            es = "(SLstm 4)"
+        else:
+            ln = True if case["net"] == "rainbow" else ec.get("layer_norm", True)
+            es = f"(SMlp 4 {coq_bool(ln)})"
+        n = case["net"]
+        out = {"q": 3, "rainbow": 5, "contq": 1, "value": 1, "det": 2, "stoch": 2}[n]
+        rainbow = n == "rainbow"
+        return (f"{{| ns_enc := {es}; ns_head_in_extra := {cz(2 if n == 'contq' else 0)}; ns_head_out := {cz(out)}; "
+                f"ns_head_layer_norm := {coq_bool(True if rainbow else hc.get('layer_norm', True))}; ns_head_noisy := {coq_bool(rainbow)}; "
+                f"ns_wrapped_head := {coq_bool(n == 'stoch')}; ns_log_std := {'(Some 2)' if n == 'stoch' else 'None'}; ns_dueling := {'(Some 15)' if rainbow else 'None'} |}}")
+
+    def cfg_term(self, case):
+        blk, pc = self.sub(case, "enc")
+        if case["obs"] == "image":
+            ek = f"(KCnn {blk.cfg_term(pc['cfg'])})"
+        elif case["obs"] in ("simba", "lstm"):
+            ek = f"(KScalar {blk.cfg_term(pc['cfg'])})"
+        else:
+            ek = f"(KMlp {blk.cfg_term(pc['cfg'])})"
+        hb, hp = self.sub(case, "head")
+        return (f"{{| n_min_latent := {cz(case['cfg']['min_latent_dim'])}; n_max_latent := {cz(case['cfg']['max_latent_dim'])}; "
+                f"n_enc_cfg := {ek}; n_head_cfg := {hb.cfg_term(hp['cfg'])} |}}")
+
+    def meth_term(self, case, step):
+        m = step["m"]
+        a = step.get("args", {})
+        if m == "add_latent_node":
+            return f"(NAddLatent {copt(a.get('numb_new_nodes'))})"
+        if m == "remove_latent_node":
+            return f"(NRemoveLatent {copt(a.get('numb_new_nodes'))})"
+        if m.startswith("head_net."):
+            return f"(NHead {BLOCKS['mlp'].meth_term({'m': m[9:], 'args': a})})"
+        inner = m[len("encoder."):]
+        o = case["obs"]
+        if o == "image":
+            t = {"change_kernel": f"ECChangeKernel {meth_args(step, ['kernel_size', 'hidden_layer'])}",
+                 "add_channel": f"ECAddChannel {meth_args(step, ['hidden_layer', 'numb_new_channels'])}",
+                 "remove_channel": f"ECRemoveChannel {meth_args(step, ['hidden_layer', 'numb_new_channels'])}"}[inner]
+        elif o in ("simba", "lstm"):
+            t = ("ESAddNode " if inner == "add_node" else "ESRemoveNode ") + copt(a.get("numb_new_nodes"))
+        else:
+            t = ("EMAddNode " if inner == "add_node" else "EMRemoveNode ") + meth_args(step, ["hidden_layer", "numb_new_nodes"])
+        return f"(NEnc ({t}))"
+
+    def full_term(self, f):
+        oa = "None" if f["output_activation"] is None else f'(Some "{f["output_activation"]}")'
+        return (f'{{| f_activation := "{f["activation"]}"; f_output_activation := {oa}; f_layer_norm := {coq_bool(f["layer_norm"])}; '
+                f'f_output_layernorm := {coq_bool(f["output_layernorm"])}; f_output_vanish := {coq_bool(f["output_vanish"])} |}}')
+
+    def coq(self, case, obs):
+        self._case = case
+        self._obs = obs
+        steps = "[" + "; ".join(
+            f"({self.meth_term(case, s)}, {draws(s, 2)}, {cobs(self.arch_term(case, r['desc']), r)})"
+            for s, r in zip(case["steps"], obs["steps"])) + "]"
+        t = (f"check_net {self.static_term(case)} {self.cfg_term(case)} {self.arch_term(case, case_init_desc(case))} "
+             f"(Some {cshapes(obs['shapes0'])}) {steps}")
+        if obs.get("enc_full") is not None and isinstance(obs.get("enc_full_rebuilt"), dict):
+            ec = case["cfg"]["encoder_config"]
+
+            def o(k, f):
+                return "None" if ec.get(k) is None else f"(Some {f(ec[k])})"
+            u = (f"{{| u_activation := {o('activation', lambda x: chr(34) + x + chr(34))}; u_output_activation := {o('output_activation', lambda x: chr(34) + x + chr(34))}; "
+                 f"u_layer_norm := {o('layer_norm', coq_bool)}; u_output_layernorm := {o('output_layernorm', coq_bool)}; u_output_vanish := {o('output_vanish', coq_bool)} |}}")
+            t = f"({t}) && check_cfg {u} {self.full_term(obs['enc_full'])} {self.full_term(obs['enc_full_rebuilt'])}"
+        return t
+
+
+def case_init_desc(case):
+    i = case["init"]
+    return {"latent": i["latent"], "enc": i["enc"], "head": {"layers": len(i["head"]), "widths": i["head"]}}
+
+
+register(Net())
